@@ -6,6 +6,7 @@ RUNS = [
     dict(name="quote", harness="c20", driver="text", model_ml="text_model", harness_args=["-part", "quote"]),
     dict(name="render", harness="c20", driver="text", model_ml="text_model", harness_args=["-part", "render"]),
     dict(name="history", harness="c20", driver="text", model_ml="text_model", harness_args=["-part", "history"]),
+    dict(name="hostile", harness="c20", driver="text", model_ml="text_model", harness_args=["-part", "hostile"]),
 ]
 
 
@@ -62,7 +63,30 @@ def classify(run, case, impl, model):
         if i[1] != m[1]:
             return "history/text-differs-from-model"
         return "history/budget-differs"
+    if op == "hostile":
+        return "hostile/%s" % i[0]
+    if op == "recrender":
+        if i[0] != "ok":
+            return "recursive-type/%s" % i[0]
+        if len(i) >= 3 and len(m) >= 3 and i[2] != m[2]:
+            return "recursive-type/readback-differs"
+        return "recursive-type/text-differs-from-model"
     return "%s/impl=%s/model=%s" % (op, i[0], m[0])
+
+
+def impl_violation(run, case, impl):
+    """Property predicate on the implementation alone (evaluated on every case): rendering a
+    hostile message or a value of a recursive type must return (text or error) - no panic, no
+    crash, no hang - with output within the bound derived from the traversal limit."""
+    op = case.split()[0]
+    w = impl.split()[0] if impl else ""
+    if op == "hostile":
+        return w != "safe"
+    if op == "recrender":
+        return w in ("crash", "panic", "hang")
+    if op in ("render", "history"):
+        return w in ("panic", "hang")
+    return False
 
 
 def violates(run, case, impl, model):
@@ -90,6 +114,12 @@ def violates(run, case, impl, model):
             return True
         same = i[2].split("=")[1].split("/")
         return same[0] != same[1]            # some later Encode differed from the first or failed
+    if op == "hostile":
+        return True                          # panic / hang / output beyond the bound
+    if op == "recrender":
+        if i[0] != "ok":
+            return True                      # crash (stack overflow), panic or error on a valid value
+        return len(i) >= 3 and len(m) >= 3 and i[2] != m[2]
     return True
 
 
@@ -100,7 +130,10 @@ LEVEL_TEXT = ("Proof: for all byte strings the literal written by strquote.Appen
               "histories of Encode calls on one encoder the next Encode writes what a fresh encoder writes. The models "
               "are tied to strquote, encoding/text, list.go and nodemap by differential runs (extracted OCaml vs the "
               "Go code, incl. the exact remaining budget of the cached schema message).")
-LEVEL_NOTE = ("Trusted: Coq kernel, extraction, harness; the models are hand-written. Floats are opaque tokens (strconv 'g' "
+LEVEL_NOTE = ("C01/C02 clause for the renderer (round 2): hostile-message and recursive-type runs with impl_violation; totality "
+              "of the walk is proved only for structs without struct/list/group fields (C20_render_total_flat_partial, an "
+              "extra theorem outside C20's own statement); the pre-fix divergence is render_total_refuted. "
+              "Trusted: Coq kernel, extraction, harness; the models are hand-written. Floats are opaque tokens (strconv 'g' "
               "not modelled; parse_render is stated for float-free schemas, history independence for all). Decimal "
               "printing is Coq's Z.to_int. The value message's own traversal budget is reset by the harness before "
               "every Encode (not the subject of C20).")
